@@ -40,9 +40,11 @@ type InstCfg struct {
 	// expires, then unhealthy), 'S' slow then healthy. After the string is used up: HealthRest.
 	Health     string `json:"health"`
 	HealthRest string `json:"health_rest"`
-	Conn       bool   `json:"conn"`
-	GraceUs    int64  `json:"grace_us"`
-	ViUs       int64  `json:"vi_us"`
+	// HealthHangUs: how long a result 'x' hangs, ignoring the context, before it reports healthy.
+	HealthHangUs int64 `json:"health_hang_us"`
+	Conn         bool  `json:"conn"`
+	GraceUs      int64 `json:"grace_us"`
+	ViUs         int64 `json:"vi_us"`
 	// DemoteDurUs: how long the OnDemote callback takes.
 	DemoteDurUs int64 `json:"demote_dur_us"`
 	// PromoteReturn: the OnPromote callback returns at once instead of blocking on its context.
@@ -51,9 +53,9 @@ type InstCfg struct {
 	// GateStopMetric: the metrics callback recording the leadership duration inside Stop's critical section (before
 	// the leader flag is cleared) blocks until a release_gate step: a scheduler gate that lets a timer fire while
 	// Stop holds the election's lock.
-	GateStopMetric bool `json:"gate_stop_metric"`
-	HUs              int64 `json:"h_us"`
-	TTLUs            int64 `json:"ttl_us"`
+	GateStopMetric bool  `json:"gate_stop_metric"`
+	HUs            int64 `json:"h_us"`
+	TTLUs          int64 `json:"ttl_us"`
 }
 
 // Match selects a pending operation (or watch delivery) of an instance.
